@@ -221,6 +221,180 @@ def suite_response_glue(ctx, exe):
     ctx.close_suite("response_glue", ran)
 
 
+# ---- StreamWriter op sequences ---------------------------------------------------------------
+
+HEADS = [("HTTP/1.1 200 OK", [("Content-Type", "text/plain")]), ("POST /x HTTP/1.1", [("Host", "h"), ("X-A", "1")]),
+         ("HTTP/1.0 404 Not Found", [])]
+
+
+def gen_ops(rng):
+    ops = []
+    n = rng.randint(1, 9)
+    chunked = rng.random() < 0.5
+    if chunked and rng.random() < 0.8:
+        ops.append(("C",))
+    if rng.random() < 0.35:
+        ops.append(("L", rng.choice([0, 1, 3, 5, 10, 40])))
+    if rng.random() < 0.9:
+        ops.append(("H", rng.randrange(len(HEADS))))
+    for _ in range(n):
+        r = rng.random()
+        size = rng.choice([0, 0, 1, 2, 3, 5, 16, 17, 255, 256, 300, 2047, 2048, 4100]) if rng.random() < 0.7 else rng.randint(0, 40)
+        data = bytes(rng.randrange(256) for _ in range(min(size, 64))) * (1 if size <= 64 else size // 64 + 1)
+        data = data[:size]
+        if r < 0.5:
+            ops.append(("W", data))
+        elif r < 0.62:
+            ops.append(("S",))
+        elif r < 0.77:
+            ops.append(("E", data if rng.random() < 0.6 else b""))
+        elif r < 0.85:
+            ops.append(("X",))
+        elif r < 0.9:
+            ops.append(("C",))
+        elif r < 0.95:
+            ops.append(("H", rng.randrange(len(HEADS))))
+        else:
+            ops.append(("L", rng.choice([None, 0, 2, 7, 1000])))
+    if rng.random() < 0.7:
+        ops.append(("E", b"") if rng.random() < 0.5 else ("X",))
+    return ops
+
+
+def impl_writer(loop, ops):
+    from multidict import CIMultiDict
+    from aiohttp.http_writer import StreamWriter, _serialize_headers
+    from harness.common.transport import MemTransport
+    from unittest import mock
+
+    async def go():
+        proto = mock.Mock()
+        tr = MemTransport(loop, None)
+        proto.transport = tr
+        proto._paused = False
+        w = StreamWriter(proto, loop)
+        for op in ops:
+            k = op[0]
+            if k == "H":
+                sl, hs = HEADS[op[1]]
+                await w.write_headers(sl, CIMultiDict(hs))
+            elif k == "S":
+                w.send_headers()
+            elif k == "W":
+                await w.write(op[1])
+            elif k == "E":
+                await w.write_eof(op[1])
+            elif k == "X":
+                w.set_eof()
+            elif k == "C":
+                w.enable_chunking()
+            elif k == "L":
+                w.length = op[1]
+        return bytes(tr.buf), (w.chunked, w._headers_written, w._eof, w.length)
+    return loop.run_until_complete(go())
+
+
+def head_bytes(i):
+    from multidict import CIMultiDict
+    from aiohttp.http_writer import _serialize_headers
+    sl, hs = HEADS[i]
+    return bytes(_serialize_headers(sl, CIMultiDict(hs)))
+
+
+def dechunk_ref(b: bytes):
+    """Independent reference de-chunker: returns (data, rest) or None."""
+    out = b""
+    while True:
+        i = b.find(b"\r\n")
+        if i < 0:
+            return None
+        try:
+            n = int(b[:i], 16)
+        except ValueError:
+            return None
+        b = b[i + 2:]
+        if n == 0:
+            return (out, b[2:]) if b[:2] == b"\r\n" else None
+        if len(b) < n + 2 or b[n:n + 2] != b"\r\n":
+            return None
+        out, b = out + b[:n], b[n + 2:]
+
+
+def suite_writer(ctx, exe):
+    from harness.common.loop import VLoop
+    rng = ctx.rng
+    loop = VLoop()
+    asyncio.set_event_loop(loop)
+    ran = 0
+    try:
+        n = 1500 if ctx.quick else 40000
+        seqs = [gen_ops(rng) for _ in range(n)]
+        lines = []
+        for ops in seqs:
+            toks = []
+            for op in ops:
+                k = op[0]
+                if k == "H":
+                    toks.append("H:" + fw.hexs(head_bytes(op[1])))
+                elif k in ("W", "E"):
+                    toks.append(k + ":" + fw.hexs(op[1]))
+                elif k == "L":
+                    toks.append("L:" + ("none" if op[1] is None else str(op[1])))
+                else:
+                    toks.append(k)
+            lines.append("WRUN " + " ".join(toks))
+        model = fw.run_model(exe, lines)
+        for ops, m in zip(seqs, model):
+            out, st = impl_writer(loop, ops)
+            ran += 1
+            mo, flags, mlen = m.split()
+            ctx.case((tuple((o[0], bytes(o[1]) if len(o) > 1 and isinstance(o[1], bytes) else (o[1] if len(o) > 1 else None)) for o in ops)), nontrivial=bool(out))
+            for o in ops:
+                ctx.count("wop:" + o[0])
+            ist = "%d%d%d %s" % (st[0], st[1], st[2], "none" if st[3] is None else st[3])
+            case = {"suite": "writer", "ops": [[o[0]] + ([o[1].hex()] if len(o) > 1 and isinstance(o[1], bytes) else ([o[1]] if len(o) > 1 else [])) for o in ops]}
+            if fw.unhex(mo) != out or (flags + " " + mlen) != ist:
+                ctx.disagreement("stream_writer", case, m[:300], out.hex()[:300] + " " + ist)
+            # property oracle on the implementation: framing is truthful for the simple, well-formed uses
+            #   [C?] [L n?] H (W|S)* (E|X)  with chunking / length fixed before the head
+            kinds = [o[0] for o in ops]
+            try:
+                hi = kinds.index("H")
+            except ValueError:
+                continue
+            pre, post = kinds[:hi], kinds[hi + 1:]
+            if any(k not in ("C", "L") for k in pre) or any(k in ("H", "C", "L") for k in post) or not post or post[-1] not in ("E", "X") or any(k in ("E", "X") for k in post[:-1]):
+                continue
+            head = head_bytes(ops[hi][1])
+            if not out.startswith(head):
+                ctx.violation(case, "output does not start with the buffered head")
+                continue
+            body = out[len(head):]
+            written = b"".join(o[1] for o in ops[hi + 1:] if o[0] in ("W", "E"))
+            chunked = "C" in pre
+            length = None
+            for o in ops[:hi]:
+                if o[0] == "L":
+                    length = o[1]
+            ctx.count("wellformed:" + ("chunked" if chunked else "plain") + (":len" if length is not None else ""))
+            if length is not None:
+                # only write() honours the declared length; what write_eof(chunk) adds is the caller's business
+                w_only = b"".join(o[1] for o in ops[hi + 1:] if o[0] == "W")
+                e_part = b"".join(o[1] for o in ops[hi + 1:] if o[0] == "E")
+                written = w_only[:length] + e_part
+            if chunked:
+                r = dechunk_ref(body)
+                if r is None or r[0] != written or r[1] != b"":
+                    ctx.violation(case, f"chunked output does not decode to the written data: body={body[:80]!r} written={written[:40]!r}")
+            elif body != written:
+                ctx.violation(case, f"plain body differs from the written data (declared length {length})")
+        ctx.sample({"suite": "writer", "ops": case["ops"][:6], "model": model[-1][:120]})
+    finally:
+        asyncio.set_event_loop(None)
+        loop.close()
+    ctx.close_suite("stream_writer", ran)
+
+
 def run(ctx):
     ok, exe = build_model()
     ctx.oblige("model-runner-build", "correspondence", ok, "" if ok else exe)
@@ -228,6 +402,7 @@ def run(ctx):
         return
     suite_serialize(ctx, exe)
     suite_response_glue(ctx, exe)
+    suite_writer(ctx, exe)
 
 
 def replay(ctx, case):
